@@ -1016,3 +1016,21 @@ V("c02-reshape-door-loses-single-partition-shortcut", "C02", "R02.13", "dask_arr
   ("dask_array/manipulation/_reshape.py", "    if npartitions == 1:\n        return new_collection(ReshapeLowered(expr, shape, tuple((d,) for d in shape)))\n", ""),
   ("dask_array/manipulation/_reshape.py", "        if len(shape) == 1 and x.ndim == 1:\n            return new_collection(x.expr)\n", ""),
 ])
+
+# -- R04.11 / R04.12 ------------------------------------------------------------------------------------------------
+V("c04-setitem-index-graph-merged-before-gather", "C04", "R04.11", "dask_array/slicing/_setitem.py",
+  "                idx = concatenate_array_chunks_expr(idx)\n                idx_key = next(flatten(idx.__dask_keys__()))\n                dsk.update(dict(idx.__dask_graph__()))\n", "                dsk.update(dict(idx.__dask_graph__()))\n                idx = concatenate_array_chunks_expr(idx)\n                idx_key = next(flatten(idx.__dask_keys__()))\n", expect="setitem_array_expr")
+V("c04-setitem-value-graph-merged-before-gather", "C04", "R04.11", "dask_array/slicing/_setitem.py",
+  "        v = concatenate_array_chunks_expr(v)\n        v_key = next(flatten(v.__dask_keys__()))\n\n        # Merge value's graph into dsk\n        dsk.update(dict(v.__dask_graph__()))\n", "        dsk.update(dict(v.__dask_graph__()))\n        v = concatenate_array_chunks_expr(v)\n        v_key = next(flatten(v.__dask_keys__()))\n", expect="setitem_array_expr")
+V("c04-bincount-not-grid-sensitive", "C04", "R04.12", "dask_array/routines/_bincount.py",
+  "    def _requires_grid_preservation(self, dependency):\n        # ``_layer`` pairs the blocks of several inputs by position\n        return True\n\n", "", expect="BincountChunked")
+V("c04-broadcast-to-not-grid-sensitive", "C04", "R04.12", "dask_array/_broadcast_to.py",
+  "    def _requires_grid_preservation(self, dependency):\n        # ``_chunks`` carries the input's block grid along the real dimensions\n        return True\n\n", "", expect="BroadcastTo")
+V("c04-histogram-grid-sensitivity-conditional", "C04", "R04.12", "dask_array/_histogram.py",
+  "    def _requires_grid_preservation(self, dependency):\n        # ``_layer`` pairs the blocks of several inputs by position\n        return True\n\n    def _layer(self) -> dict:\n        from dask._task_spec import List as TaskList\n\n        dsk = {}\n        array_keys", "    def _requires_grid_preservation(self, dependency):\n        return dependency is self.weights\n\n    def _layer(self) -> dict:\n        from dask._task_spec import List as TaskList\n\n        dsk = {}\n        array_keys", expect="HistogramBinned")
+V("c04-twin-grid-sensitivity-declared-in-mixin", "C04", "-", "dask_array/routines/_unique.py", None, None, twin=True, edits=[
+  ("dask_array/routines/_unique.py", "    def _requires_grid_preservation(self, dependency):\n        # ``_layer`` pairs the blocks of several inputs by position\n        return True\n\n", ""),
+  ("dask_array/routines/_unique.py", "class UniqueChunked(ArrayExpr):", "class _PairsBlocksByPosition:\n    def _requires_grid_preservation(self, dependency):\n        return True\n\n\nclass UniqueChunked(_PairsBlocksByPosition, ArrayExpr):"),
+])
+V("c12-shuffle-identity-shortcut-endpoints-only", "C12", "R12.5", "dask_array/_shuffle.py",
+  "            if len(idx) != c or any(actual != expected for actual, expected in zip(idx, range(ctr, ctr + c))):", "            if len(idx) != c or (c and (idx[0] != ctr or idx[-1] != ctr + c - 1)):", expect="_shuffle")
